@@ -12,7 +12,7 @@ import (
 
 func init() {
 	register(&Property{
-		ID: "C18",
+		ID:          "C18",
 		Explanation: "Decided for all paths: only runLeader (true, first thing on entry) and its deferred exit function (false) write to leaderCh and send on the configured NotifyCh; the deferred function is registered on every path that reaches leaderLoop and both sides use the channel value read once from the configuration; on the NotifyCh the blocking send may only be abandoned through shutdownCh, and then a non-blocking attempt is still made; runLeader runs only in state Leader and the only way into that state is the vote-winning arm (C01.R1); every state change clears the advertised leader first; a non-empty leader is advertised only by the winner itself and by AppendEntries/InstallSnapshot handlers after the stale-term test (so it names a server that sent a leader RPC of a term >= ours, which S-HIGHER then makes equal to ours); leaving leadership clears the advertisement only if it still names this server; overrideNotifyBool either sends, or drains one value and sends (panic otherwise), so the channel always ends up holding the latest value.",
 		NotDecided:  "what a slow or absent NotifyCh consumer observes around shutdown, and 'ends up holding the most recent' under concurrent readers of LeaderCh.",
 		RuleText:    "C18.R1 sender tables; R2 pairing/ordering in runLeader and its deferred function; R3 = C01.R1/R5 excerpts; R4 setState/setLeader call sites with guards; R5 shape of overrideNotifyBool.",
